@@ -243,24 +243,42 @@ theorem bundlesh_name_exact (rels : List (Text × String)) (vis : SheetVisible) 
     any payload — BrtBookView, BrtFileVersion, future records), each framed with any legal id width and length
     width, then BrtEndBundleShs and one of the records that follow the defined names. `read_workbook` (after fix
     C16-a) reports exactly the declared sheets in order, and bit 0 of the last BrtWbProp as the date system.
-    `pf` (the formula decoder, C14) is arbitrary. -/
+    `pf` (the formula decoder, C14) is arbitrary; the defined names are described by `defined_names_in_order_xlsb`. -/
 theorem sheets_in_order_xlsb (pf : Bytes → List Text → List (Text × Text) → Res Text) (rels : List (Text × String))
     (recs : List WRec) (hall : ∀ r ∈ recs, r.ok rels) (ew : Bool) (el : Nat)
+    (nrecs : List NRec) (hok : namesOk pf ((declaredW recs).map (XlsbSheet.decoded rels)) ([], []) nrecs)
     (t : Nat) (ht : isAfterNames t = true) (tw : Bool) (tl : Nat) (rest : Bytes) :
-    readWorkbookXlsb pf rels (encodeWorkbookBin recs ew el (Xlsb.frame t [] tw tl ++ rest)) =
-      .ok (⟨(declaredW recs).map (fun s => (s.decoded rels).1), [], flagW recs⟩,
+    readWorkbookXlsb pf rels (encodeWorkbookBin recs ew el (nrecs.flatMap NRec.bytes ++ (Xlsb.frame t [] tw tl ++ rest))) =
+      .ok (⟨(declaredW recs).map (fun s => (s.decoded rels).1),
+            (nrecs.foldl (applyN pf ((declaredW recs).map (XlsbSheet.decoded rels))) ([], [])).2, flagW recs⟩,
            (declaredW recs).map (fun s => (s.decoded rels).2)) := by
-  obtain ⟨fuel, hf⟩ := encodeWorkbookBin_fuel recs ew el (Xlsb.frame t [] tw tl ++ rest)
-  obtain ⟨ht1, ht2, ht3⟩ := afterNames_lt t ht
+  obtain ⟨fuel, hf⟩ := encodeWorkbookBin_fuel recs ew el (nrecs.flatMap NRec.bytes ++ (Xlsb.frame t [] tw tl ++ rest))
   unfold readWorkbookXlsb readWorkbookXlsbWith
-  have h1 := loop1_encode rels recs hall ew el (Xlsb.frame t [] tw tl ++ rest) fuel
+  have h1 := loop1_encode rels recs hall ew el (nrecs.flatMap NRec.bytes ++ (Xlsb.frame t [] tw tl ++ rest)) fuel
   unfold xlsbLoop1 at h1
   rw [hf, h1]
   simp only
-  rw [xlsbLoop2With, readType_frame t ht1]
-  simp only [ht2, ht3, ht, if_false, if_true]
   rw [foldl_applyW]
+  simp only [List.nil_append]
+  rw [loop2_encode pf _ nrecs hok t ht tw tl rest]
   simp [flagW, List.map_map, Function.comp_def]
+
+/-- **xlsb: defined names in part order.** After the sheet list: any sequence of BrtExternSheet records, BrtName
+    records (any flags, scope, name, formula bytes the formula decoder accepts in the state reached so far,
+    anything after the formula) and records the loop does not interpret, under any framing, up to one of the
+    records that follow the names. The reader reports one entry per BrtName, in order: the name (UTF-16 decoded)
+    and the text `pf` gives for the formula bytes, the extern-sheet names current at that point (each XTI's first
+    sheet resolved against the sheet list) and the names defined before it. -/
+theorem defined_names_in_order_xlsb (pf : Bytes → List Text → List (Text × Text) → Res Text) (rels : List (Text × String))
+    (recs : List WRec) (hall : ∀ r ∈ recs, r.ok rels) (ew : Bool) (el : Nat)
+    (nrecs : List NRec) (hok : namesOk pf ((declaredW recs).map (XlsbSheet.decoded rels)) ([], []) nrecs)
+    (t : Nat) (ht : isAfterNames t = true) (tw : Bool) (tl : Nat) (rest : Bytes) :
+    ∀ wb p, readWorkbookXlsb pf rels (encodeWorkbookBin recs ew el (nrecs.flatMap NRec.bytes ++ (Xlsb.frame t [] tw tl ++ rest))) = .ok (wb, p) →
+      wb.names = (nrecs.foldl (applyN pf ((declaredW recs).map (XlsbSheet.decoded rels))) ([], [])).2 := by
+  intro wb p h
+  rw [sheets_in_order_xlsb pf rels recs hall ew el nrecs hok t ht tw tl rest] at h
+  cases h
+  rfl
 
 /-- **xlsb: the date-system flag** is bit 0 of BrtWbProp -/
 theorem date1904_flag_xlsb (pf : Bytes → List Text → List (Text × Text) → Res Text) (rels : List (Text × String))
@@ -269,7 +287,9 @@ theorem date1904_flag_xlsb (pf : Bytes → List Text → List (Text × Text) →
     ∀ wb p, readWorkbookXlsb pf rels (encodeWorkbookBin recs ew el (Xlsb.frame t [] tw tl ++ rest)) = .ok (wb, p) →
       wb.is1904 = flagW recs := by
   intro wb p h
-  rw [sheets_in_order_xlsb pf rels recs hall ew el t ht tw tl rest] at h
+  have := sheets_in_order_xlsb pf rels recs hall ew el [] trivial t ht tw tl rest
+  simp only [List.flatMap_nil, List.nil_append] at this
+  rw [this] at h
   cases h
   rfl
 
